@@ -599,3 +599,180 @@ Proof.
     apply IHs. destruct k as [l|l|l|l o|q|q]; simpl; try exact He. destruct l; simpl; try exact He. right. exact He. }
   apply Hmono. unfold run, write_atomic_steps. simpl. left. reflexivity.
 Qed.
+
+(* ================= rollback under crashes ================= *)
+Lemma run_restore_steps l : forall f st, agrees st f -> agrees (run (restore_steps l) st) (restore_managed f l).
+Proof.
+  unfold restore_steps, restore_managed. induction l as [|e l IH]; intros f st Ha; [exact Ha|].
+  cbn [flat_map fold_left]. rewrite run_app. apply IH. intros q. rewrite run_write_atomic_target.
+  unfold upd. destruct (path_eqb q (snd (fst e))); [reflexivity|apply Ha].
+Qed.
+
+Lemma run_manifest_restore_steps l : forall f st, agrees st f ->
+  agrees (run (manifest_restore_steps l) st) (restore_manifests f l).
+Proof.
+  unfold manifest_restore_steps, restore_manifests. induction l as [|c l IH]; intros f st Ha; [exact Ha|].
+  cbn [flat_map fold_left]. rewrite run_app. apply IH.
+  destruct (is_manifest_path (a_path c) && is_cu (a_op c)); [|exact Ha].
+  destruct (a_after c) as [o|]; [|exact Ha]. intros q. rewrite run_write_atomic_target.
+  unfold upd. destruct (path_eqb q (a_path c)); [reflexivity|apply Ha].
+Qed.
+
+Lemma run_delete_steps cur tgt : forall f st, agrees st f ->
+  agrees (run (delete_steps f cur tgt) st) (delete_unlisted f cur tgt).
+Proof.
+  induction cur as [|e cur IH]; intros f st Ha; [exact Ha|].
+  cbn [delete_steps]. unfold delete_unlisted. cbn [fold_left].
+  fold (delete_unlisted (if mem_tpc (fst (fst e), snd (fst e)) tgt then f else upd f (snd (fst e)) None) cur tgt).
+  destruct (mem_tpc (fst (fst e), snd (fst e)) tgt) eqn:Em; [apply IH; exact Ha|].
+  destruct (exists_at f (snd (fst e))) eqn:Ex.
+  - change (KRemove (snd (fst e)) :: delete_steps (upd f (snd (fst e)) None) cur tgt)
+      with ([KRemove (snd (fst e))] ++ delete_steps (upd f (snd (fst e)) None) cur tgt).
+    rewrite run_app. apply IH. intros q. unfold run. simpl. unfold upd.
+    destruct (path_eqb q (snd (fst e))); [reflexivity|apply Ha].
+  - (* nothing to remove: the model's pointwise update is the identity there *)
+    intros q. pose proof (IH f st Ha q) as H. rewrite H.
+    assert (E : forall g g', (forall x, g x = g' x) -> forall x, delete_unlisted g cur tgt x = delete_unlisted g' cur tgt x).
+    { clear. induction cur as [|e' cur IHc]; intros g g' Hg x; [apply Hg|].
+      unfold delete_unlisted. cbn [fold_left].
+      fold (delete_unlisted (if mem_tpc (fst (fst e'), snd (fst e')) tgt then g else upd g (snd (fst e')) None) cur tgt).
+      fold (delete_unlisted (if mem_tpc (fst (fst e'), snd (fst e')) tgt then g' else upd g' (snd (fst e')) None) cur tgt).
+      apply IHc. intros y. destruct (mem_tpc (fst (fst e'), snd (fst e')) tgt); [apply Hg|].
+      unfold upd. destruct (path_eqb y (snd (fst e'))); [reflexivity|apply Hg]. }
+    apply E. intros x. unfold upd. destruct (path_eqb x (snd (fst e))) eqn:Ep; [|reflexivity].
+    apply path_eqb_eq in Ep. subst x. unfold exists_at in Ex. destruct (f (snd (fst e))); [discriminate|reflexivity].
+Qed.
+
+(* C07 (rollback): an uninterrupted run of rollback's operation sequence yields exactly the files
+   of the rollback model *)
+Lemma run_all_is_rollback w id w' tgt cur h :
+  nth_error (snaps w) id = Some tgt -> head_of (snaps w) = Some h -> nth_error (snaps w) h = Some cur ->
+  rollback w id = (RbOk, w') ->
+  forall q, cfiles (run (steps_of_rollback (files w) tgt cur) (init_state (files w))) q = files w' q.
+Proof.
+  intros Ht Hh Hc Hrb q. unfold rollback in Hrb. rewrite Ht, Hh, Hc in Hrb.
+  assert (Hw : files w' = delete_unlisted (restore_manifests (restore_managed (files w) (sn_managed tgt)) (sn_changes tgt))
+                                           (sn_managed cur) (sn_managed tgt)).
+  { destruct (sn_kind tgt); try discriminate; destruct (sn_state tgt); try discriminate; inversion Hrb; reflexivity. }
+  rewrite Hw. unfold steps_of_rollback. rewrite !run_app.
+  rewrite run_write_atomic_home by (intros p; discriminate).
+  assert (Hk : forall st, cfiles (run [KMk LSnapDir] st) = cfiles st) by reflexivity. rewrite Hk.
+  apply run_delete_steps. apply run_manifest_restore_steps. apply run_restore_steps. intros x. reflexivity.
+Qed.
+
+(* counting effective operations of the rollback sequence *)
+Lemma restore_steps_ntouch p l :
+  ntouch p (restore_steps l) = length (filter (fun e => path_eqb (snd (fst e)) p) l).
+Proof.
+  unfold restore_steps. induction l as [|e l IH]; [reflexivity|]. cbn [flat_map filter]. rewrite ntouch_app, IH, ntouch_write_atomic.
+  destruct (path_eqb (snd (fst e)) p); reflexivity.
+Qed.
+
+Lemma manifest_restore_steps_ntouch p l :
+  (ntouch p (manifest_restore_steps l) <=
+   length (filter (fun c => path_eqb (a_path c) p) (filter (fun c => is_manifest_path (a_path c) && is_cu (a_op c)) l)))%nat.
+Proof.
+  unfold manifest_restore_steps. induction l as [|c l IH]; [unfold ntouch; simpl; lia|]. cbn [flat_map filter]. rewrite ntouch_app.
+  destruct (is_manifest_path (a_path c) && is_cu (a_op c)).
+  - cbn [filter]. destruct (a_after c).
+    + rewrite ntouch_write_atomic. destruct (path_eqb (a_path c) p); simpl; lia.
+    + unfold ntouch at 1. simpl. destruct (path_eqb (a_path c) p); simpl; lia.
+  - unfold ntouch at 1. simpl. lia.
+Qed.
+
+Lemma delete_steps_ntouch p cur tgt : forall f,
+  (ntouch p (delete_steps f cur tgt) <=
+   length (filter (fun e => path_eqb (snd (fst e)) p && negb (mem_tpc (fst (fst e), snd (fst e)) tgt)) cur))%nat.
+Proof.
+  induction cur as [|e cur IH]; intros f; [unfold ntouch; simpl; lia|]. cbn [delete_steps filter].
+  destruct (mem_tpc (fst (fst e), snd (fst e)) tgt); [rewrite andb_false_r; apply IH|]. rewrite andb_true_r.
+  destruct (exists_at f (snd (fst e))).
+  - unfold ntouch. cbn [filter touches]. specialize (IH (upd f (snd (fst e)) None)). unfold ntouch in IH.
+    destruct (path_eqb (snd (fst e)) p); simpl; lia.
+  - specialize (IH f). destruct (path_eqb (snd (fst e)) p); simpl; lia.
+Qed.
+
+(* C07 (rollback): at every crash point every file holds its previous or its final content.
+   Hypotheses as for the exact-effect theorem of C06: the chosen snapshot's managed paths are
+   pairwise distinct and no manifest files, it wrote each manifest once, the head's managed paths
+   are distinct, no manifest files, and a path is managed under one target in both *)
+Lemma rollback_old_or_new f tgt cur k p :
+  NoDup (map (fun e : str * path * N => snd (fst e)) (sn_managed tgt)) ->
+  NoDup (map (fun e : str * path * N => snd (fst e)) (sn_managed cur)) ->
+  (forall e, In e (sn_managed tgt) -> is_manifest_path (snd (fst e)) = false) ->
+  (forall e, In e (sn_managed cur) -> is_manifest_path (snd (fst e)) = false) ->
+  (forall e e', In e (sn_managed cur) -> In e' (sn_managed tgt) -> snd (fst e) = snd (fst e') -> fst (fst e) = fst (fst e')) ->
+  NoDup (map a_path (filter (fun c => is_manifest_path (a_path c) && is_cu (a_op c)) (sn_changes tgt))) ->
+  cfiles (run_prefix k (steps_of_rollback f tgt cur) (init_state f)) p = f p \/
+  cfiles (run_prefix k (steps_of_rollback f tgt cur) (init_state f)) p =
+    cfiles (run (steps_of_rollback f tgt cur) (init_state f)) p.
+Proof.
+  intros H1 H2 H3 H4 H5 H6. apply (prefix_old_or_new (steps_of_rollback f tgt cur) (init_state f) p k).
+  unfold steps_of_rollback. rewrite !ntouch_app, restore_steps_ntouch.
+  rewrite ntouch_write_atomic_home by (intros q; discriminate).
+  assert (Hk : ntouch p [KMk LSnapDir] = 0%nat) by reflexivity. rewrite Hk.
+  pose proof (manifest_restore_steps_ntouch p (sn_changes tgt)) as Hm.
+  pose proof (delete_steps_ntouch p (sn_managed cur) (sn_managed tgt)
+                (restore_manifests (restore_managed f (sn_managed tgt)) (sn_changes tgt))) as Hd.
+  pose proof (nodup_filter_le1 (fun e : str * path * N => snd (fst e)) (sn_managed tgt) p H1) as A1.
+  pose proof (nodup_filter_le1 a_path _ p H6) as A2.
+  assert (A3 : (length (filter (fun e : str * path * N => path_eqb (snd (fst e)) p && negb (mem_tpc (fst (fst e), snd (fst e)) (sn_managed tgt))) (sn_managed cur)) <= 1)%nat).
+  { pose proof (nodup_filter_le1 (fun e : str * path * N => snd (fst e)) (sn_managed cur) p H2) as A.
+    eapply Nat.le_trans; [|exact A]. clear. induction (sn_managed cur) as [|e l IH]; [simpl; lia|]. simpl.
+    destruct (path_eqb (snd (fst e)) p); simpl; [destruct (negb _); simpl; lia|exact IH]. }
+  (* the three groups are pairwise exclusive at p *)
+  destruct (is_manifest_path p) eqn:Emp.
+  - (* p is a manifest: only the manifest group can touch it *)
+    assert (Z1 : filter (fun e : str * path * N => path_eqb (snd (fst e)) p) (sn_managed tgt) = []).
+    { apply filter_nil_iff. intros e He. apply path_eqb_neq. intros E. rewrite <- E, (H3 e He) in Emp. discriminate. }
+    assert (Z3 : filter (fun e : str * path * N => path_eqb (snd (fst e)) p && negb (mem_tpc (fst (fst e), snd (fst e)) (sn_managed tgt))) (sn_managed cur) = []).
+    { apply filter_nil_iff. intros e He. apply andb_false_iff. left. apply path_eqb_neq. intros E. rewrite <- E, (H4 e He) in Emp. discriminate. }
+    rewrite Z1. rewrite Z3 in Hd. simpl in *. lia.
+  - assert (Z2 : filter (fun c => path_eqb (a_path c) p) (filter (fun c => is_manifest_path (a_path c) && is_cu (a_op c)) (sn_changes tgt)) = []).
+    { apply filter_nil_iff. intros c Hc. apply filter_In in Hc as [_ Hc]. apply andb_true_iff in Hc as [Hc _].
+      apply path_eqb_neq. intros E. rewrite E in Hc. congruence. }
+    rewrite Z2 in Hm. simpl in Hm.
+    destruct (filter (fun e : str * path * N => path_eqb (snd (fst e)) p) (sn_managed tgt)) as [|e0 t0] eqn:Et.
+    + simpl in *. lia.
+    + (* p is restored: then it is not deleted *)
+      assert (He0 : In e0 (sn_managed tgt) /\ snd (fst e0) = p).
+      { assert (Hin : In e0 (filter (fun e : str * path * N => path_eqb (snd (fst e)) p) (sn_managed tgt))) by (rewrite Et; left; reflexivity).
+        apply filter_In in Hin as [Ha Hb]. apply path_eqb_eq in Hb. auto. }
+      assert (Z3 : filter (fun e : str * path * N => path_eqb (snd (fst e)) p && negb (mem_tpc (fst (fst e), snd (fst e)) (sn_managed tgt))) (sn_managed cur) = []).
+      { apply filter_nil_iff. intros e He. destruct (path_eqb (snd (fst e)) p) eqn:Ep; [|reflexivity]. simpl.
+        apply path_eqb_eq in Ep. apply negb_false_iff. unfold mem_tpc. apply existsb_exists. exists e0. split; [apply He0|].
+        destruct He0 as [Hin0 Hp0]. pose proof (H5 e e0 He Hin0 (eq_trans Ep (eq_sym Hp0))) as Ht.
+        apply tp_eqb_eq. rewrite Ht, Ep, Hp0. reflexivity. }
+      rewrite Z3 in Hd. simpl in *. lia.
+Qed.
+
+(* C07 (rollback): the rollback record is written last *)
+Lemma restore_steps_norec l : existsb is_rec (restore_steps l) = false.
+Proof. unfold restore_steps. induction l as [|e l IH]; [reflexivity|]. cbn [flat_map]. rewrite existsb_app, IH. reflexivity. Qed.
+Lemma manifest_restore_steps_norec l : existsb is_rec (manifest_restore_steps l) = false.
+Proof.
+  unfold manifest_restore_steps. induction l as [|c l IH]; [reflexivity|]. cbn [flat_map]. rewrite existsb_app, IH.
+  destruct (is_manifest_path (a_path c) && is_cu (a_op c)); [destruct (a_after c)|]; reflexivity.
+Qed.
+Lemma delete_steps_norec cur tgt : forall f, existsb is_rec (delete_steps f cur tgt) = false.
+Proof.
+  induction cur as [|e cur IH]; intros f; [reflexivity|]. cbn [delete_steps].
+  destruct (mem_tpc _ tgt); [apply IH|]. destruct (exists_at f _); [simpl; apply IH|apply IH].
+Qed.
+
+Lemma rollback_record_last f tgt cur k :
+  crecord (run_prefix k (steps_of_rollback f tgt cur) (init_state f)) = true ->
+  (length (steps_of_rollback f tgt cur) <= k)%nat.
+Proof.
+  intros H. destruct (Nat.le_gt_cases (length (steps_of_rollback f tgt cur)) k) as [Hk|Hk]; [exact Hk|].
+  exfalso. unfold run_prefix in H.
+  remember (restore_steps (sn_managed tgt) ++ manifest_restore_steps (sn_changes tgt)
+            ++ delete_steps (restore_manifests (restore_managed f (sn_managed tgt)) (sn_changes tgt)) (sn_managed cur) (sn_managed tgt)
+            ++ [KMk LSnapDir] ++ [KMk LSnapDir; KTmpC LRecord; KTmpW LRecord]) as body eqn:Eb.
+  assert (Es : steps_of_rollback f tgt cur = body ++ [KRen LRecord record_content]).
+  { unfold steps_of_rollback, write_atomic_steps. rewrite Eb. rewrite <- !app_assoc. reflexivity. }
+  rewrite Es in H, Hk. rewrite app_length in Hk. cbn [length] in Hk.
+  rewrite firstn_app in H. replace (k - length body)%nat with 0%nat in H by lia. cbn [firstn] in H. rewrite app_nil_r in H.
+  rewrite run_norec in H; [discriminate|]. apply existsb_firstn. rewrite Eb.
+  rewrite !existsb_app, restore_steps_norec, manifest_restore_steps_norec, delete_steps_norec. reflexivity.
+Qed.
